@@ -246,10 +246,11 @@ def _violation(case, ir):
             p['hidden'] = True
         elif c == 'pd':
             p['depr'] = True
-        elif c == 'hs':
-            p['cont'] = 'short'
-        elif c == 'hl':
-            p['cont'] = 'long'
+        elif c in ('hs', 'hl'):
+            if p['cont'] != 'all':
+                expect_err = 'err:runtime_error'    # short-only and long-only exclude each other
+                break
+            p['cont'] = 'short' if c == 'hs' else 'long'
         elif c in ('h', 'H'):
             want_out += expected_usage(p, ds)
             printed = True
@@ -307,7 +308,12 @@ def _violation(case, ir):
                         lab = 'help-arg-abbrev'
             return lab, 'help for one argument: expected %r, got %r' % (want_cmp[:4], got_cmp[:4])
     elif got_out != want_out:
-        return _diff_label(want_out, got_out)
+        lab, why = _diff_label(want_out, got_out)
+        hpos = min([i for i, c in enumerate(cmds) if c in ('h', 'H')] or [len(cmds)])
+        if lab == 'entry-missing' and (('ph' in cmds[:hpos] and flags & F['UsageHidden'])
+                                       or ('pd' in cmds[:hpos] and flags & F['UsageDeprecated'])):
+            return 'display-requested-twice', why + ' (display requested by the constructor flag and by the argument)'
+        return lab, why
     if got_err != want_err:
         return 'error-stream', 'error stream: expected %r, got %r' % (want_err[:3], got_err[:3])
     return None
@@ -449,7 +455,7 @@ def rargs(rng, n, long_keys=False, family=False):
                 elif long_keys and rng.chance(1, 3):
                     # key text length 38..42:  "--" + long  or  "-x,--" + long
                     tl = rng.range(38, 42) - (5 if form == 2 else 2)
-                    long_ = rng.choice(STARTS) + ''.join(rng.choice(LETTERS + '-') for _ in range(tl - 2)) + 'z'
+                    long_ = rng.choice(STARTS) + 'k' + ''.join(rng.choice(LETTERS + '-') for _ in range(tl - 3)) + 'z'
                 else:
                     long_ = rng.choice(STARTS) + rword(rng, 1, 12)
                 if long_ not in used_l and len(long_) > 1:
@@ -462,7 +468,7 @@ def rargs(rng, n, long_keys=False, family=False):
             keyspec = long_ + ',' + short if short and long_ else keyspec
         kind = rng.choice('iiissblov')
         letters = ''
-        man = rng.chance(1, 4)
+        man = rng.chance(1, 4) and kind != 'b'     # a boolean flag cannot be made mandatory
         if man:
             letters += 'm'
         if rng.chance(1, 4):
@@ -528,7 +534,10 @@ ALLSET = (F['UsageCont'] | 3 | F['HelpArg'] | F['ArgHidden'] | F['ArgDeprecated'
 CORPUS = [
     # abbreviated key for --help-arg (pinned tree: caption, but no description)
     mk_case(ALLSET, 80, ['ha=' + hx('inp')], [mk_arg('i,input', 'i', '', 'm', desc='the input nn value')]),
-    mk_case(ALLSET, 80, ['ha=' + hx('--inp')], [mk_arg('input', 's', 'abc', '', desc='the input file')]),
+    mk_case(ALLSET, 80, ['ha=' + hx('inp')], [mk_arg('input', 's', 'abc', '', desc='the input file')]),
+    # display requested by the constructor flag and by the argument (pinned tree: switched off again)
+    mk_case(ALLSET | F['UsageHidden'], 80, ['ph', 'h'], [mk_arg('s,secret', 'i', '', 'h', desc='a hidden one')]),
+    mk_case(ALLSET | F['UsageDeprecated'], 80, ['pd', 'h'], [mk_arg('o,old', 'i', '', 'd', desc='an old one')]),
     # level counter argument (pinned tree: the usage throws)
     mk_case(ALLSET, 80, ['h'], [mk_arg('v,verbose', 'l', '', '', desc='verbose level'),
                                 mk_arg('i', 'i', '7', '', desc='number')]),
@@ -617,8 +626,6 @@ def gen_cases(tier, rng):
                 q = q[:rng.range(1, len(q) - 1)]          # abbreviation (or a short key when one character)
             elif m == 1:
                 q = q + 'x'
-            if rng.chance(1, 3):
-                q = ('-' if len(q) == 1 else '--') + q
             cmds = sc + ['ha=' + hx(q)]
         cases.append(mk_case(f, width, cmds, args))
     return {'cases': cases, 'exhaustive': True,
